@@ -107,17 +107,17 @@ func TestC05(t *testing.T) {
 		tamper(t, r, tmp)
 		crashTemporaries(t, r, tmp)
 	}
-	r.Require("files_scanned", "scans_after_operation", "kek_checks", "kek_checks_after_reopen", "bit_flips", "truncations", "splices", "foreign_key_opens", "tampered_opens_rejected", "crash_point_scans", "temporaries_scanned", "mode_checks")
+	r.Require("files_scanned", "scans_after_operation", "kek_checks", "kek_checks_after_reopen", "bit_flips", "truncations", "splices", "foreign_key_opens", "tampered_opens_rejected", "crash_point_scans", "temporaries_scanned", "mode_checks", "kek_checks_after_failed_write")
 	r.Rule("histories of 15-25 operations with marker names and values on a state directory holding the database and a real audit log, every file scanned after every operation, KEK call counter read after every operation (also after a reopen); tamper loop on saved files: every single-bit flip, every truncation length, version-field edits, DEK/DB splices between databases under the same and under a different KEK, foreign KEKs; crash points of a save scanned for plaintext in temporaries. Distinct = (operation kind, file kind) for scans and (tamper kind, outcome)")
 }
 
 func history(t *testing.T, r *evid.Run, tmp string, h int) {
 	r.Eval(1)
 	rng := r.Rand(uint64(h))
-	dir := filepath.Join(tmp, fmt.Sprintf("state%d", h))
+	dir := filepath.Join(tmp, fmt.Sprintf("state%d", h), "db")
 	os.MkdirAll(dir, 0o700)
-	defer os.RemoveAll(dir)
-	dbPath, logPath := filepath.Join(dir, "database"), filepath.Join(dir, "audit.log")
+	defer os.RemoveAll(filepath.Dir(dir))
+	dbPath, logPath := filepath.Join(dir, "database"), filepath.Join(filepath.Dir(dir), "audit.log")
 	aw, err := audit.NewFile(logPath)
 	if err != nil {
 		t.Error(err)
@@ -158,6 +158,22 @@ func history(t *testing.T, r *evid.Run, tmp string, h int) {
 			op.Value = markerValue(rng)
 			values.Add(fmt.Sprintf("value #%d of %s", i, op.Name), op.Value)
 		}
+		if op.Kind.Mutating() && rng.IntN(8) == 0 {
+			// the file system fails during this call; the key service must not be needed to cope with that either
+			var got ops.Result
+			realdb.BreakDir(dbPath, func() { got = ops.ApplyReal(d, su, op) })
+			trace = append(trace, fmt.Sprintf("%s (file system fails) -> %s", op.Kind, got.Class))
+			r.Count("kek_checks_after_failed_write", 1)
+			if c := kek.calls(); c != afterOpen {
+				r.Violation("kek-used-after-open", h, fmt.Sprintf("history %d: a %s whose save failed made %d call(s) to the key-encryption key", h, op.Kind, c-afterOpen), map[string]any{"ops": trace})
+				return
+			}
+			if real, err := realdb.Dump(d); err != nil || real.Canon() != m.Canon() {
+				r.Violation("failed-write-changed-state", h, fmt.Sprintf("history %d: a %s whose save failed changed the served state (%v)", h, op.Kind, err), nil)
+				return
+			}
+			continue
+		}
 		want := ops.ApplyModel(m, nil, true, op)
 		got := ops.ApplyReal(d, su, op)
 		trace = append(trace, fmt.Sprintf("%s -> %s", op.Kind, got.Class))
@@ -175,7 +191,7 @@ func history(t *testing.T, r *evid.Run, tmp string, h int) {
 			return
 		}
 		// scan everything under the state directory
-		files, _ := scan.Files(dir)
+		files, _ := scan.Files(filepath.Dir(dir))
 		r.Count("scans_after_operation", 1)
 		for _, f := range files {
 			r.Count("files_scanned", 1)
@@ -282,16 +298,35 @@ func tamper(t *testing.T, r *evid.Run, tmp string) {
 		if fi%3 == 2 {
 			key, kind = realdb.DummyKey(fmt.Sprintf("dummy-%d", fi)), "dummy"
 		}
-		path := filepath.Join(tmp, fmt.Sprintf("tamper%d.db", fi))
+		odir := filepath.Join(tmp, fmt.Sprintf("tamper%d", fi))
+		os.MkdirAll(odir, 0o700)
+		path := filepath.Join(odir, "db")
 		orig := makeDB(t, path, key, rng, 2+fi)
 		good, _ := os.ReadFile(path)
+		// whatever else the server left next to the database stays next to the altered copy
+		var siblings []scan.File
+		if fs, _ := scan.Files(odir); true {
+			for _, f := range fs {
+				if f.Path != path {
+					siblings = append(siblings, f)
+				}
+			}
+		}
 		fi := fi
 		try := func(label string, mutated []byte, k tink.AEAD, idx int) {
-			p := filepath.Join(tmp, fmt.Sprintf("t%d-%d.db", fi, idx))
+			tdir := filepath.Join(tmp, fmt.Sprintf("t%d-%d", fi, idx))
+			os.MkdirAll(tdir, 0o700)
+			for _, sf := range siblings {
+				os.WriteFile(filepath.Join(tdir, filepath.Base(sf.Path)), sf.Data, sf.Mode.Perm())
+			}
+			p := filepath.Join(tdir, "db")
 			os.WriteFile(p, mutated, 0o600)
 			st, err := stateOf(p, k)
 			record(label+"/"+kind, err, st, orig, mutated, p, k)
-			os.Remove(p)
+			if len(siblings) > 0 {
+				r.Count("tampered_in_place_with_siblings", 1)
+			}
+			os.RemoveAll(tdir)
 		}
 		// every single-bit flip and every truncation, spread over workers
 		for chunk := 0; chunk < 16; chunk++ {
@@ -325,7 +360,8 @@ func tamper(t *testing.T, r *evid.Run, tmp string) {
 				r.Count("splices", 1)
 			}
 			// another database under the SAME key-encryption key
-			pathB := filepath.Join(tmp, fmt.Sprintf("tamper%d-b.db", fi))
+			os.MkdirAll(filepath.Join(tmp, fmt.Sprintf("tamper%d-b", fi)), 0o700)
+			pathB := filepath.Join(tmp, fmt.Sprintf("tamper%d-b", fi), "db")
 			makeDB(t, pathB, key, rng, 5)
 			gb, _ := os.ReadFile(pathB)
 			var wb wrapped
@@ -337,7 +373,8 @@ func tamper(t *testing.T, r *evid.Run, tmp string) {
 			if kind == "dummy" {
 				key2 = realdb.DummyKey("another-dummy")
 			}
-			pathC := filepath.Join(tmp, fmt.Sprintf("tamper%d-c.db", fi))
+			os.MkdirAll(filepath.Join(tmp, fmt.Sprintf("tamper%d-c", fi)), 0o700)
+			pathC := filepath.Join(tmp, fmt.Sprintf("tamper%d-c", fi), "db")
 			makeDB(t, pathC, key2, rng, 4)
 			gc, _ := os.ReadFile(pathC)
 			var wc wrapped
